@@ -380,6 +380,27 @@ class Job:
                                       'obligation': name, 'why': 'solver unknown'})
             return
         model = e.solver.model()
+        # refine the counterexample against the real libm (the log2 stub is a contract, not a function): add the true
+        # facts log2(nv) = <real value> for the model's arguments and ask again, until the model agrees with them
+        facts = []
+        for _ in range(12):
+            new = [f for f in stubs.log2_facts(model) if not z3.is_true(model.eval(f, model_completion=True))]
+            if not new:
+                break
+            facts += new
+            r = e._check(neg, *facts)
+            if r == z3.unsat:
+                self.n_discharged += 1
+                return
+            if r == z3.unknown:
+                self.inconclusive.append({'harness': self.spec.name, 'params': jsonable(self.params),
+                                          'obligation': name, 'why': 'solver unknown during log2 refinement'})
+                return
+            model = e.solver.model()
+        else:
+            self.inconclusive.append({'harness': self.spec.name, 'params': jsonable(self.params),
+                                      'obligation': name, 'why': 'log2 refinement did not converge'})
+            return
         inputs = {k: model_value(model, v) for k, v in e.inputs.items()}
         v = {'harness': self.spec.name, 'params': jsonable(self.params), 'obligation': name,
              'inputs': jsonable(inputs), 'info': jsonable({k: model_value(model, x) for k, x in info.items()}),
